@@ -11,8 +11,8 @@
 
 using namespace vf;
 
-enum IK { I_OPEN, I_CLOSE, I_NOTEON, I_NOTEOFF, I_CC, I_PATCH, I_BEND, I_GEN, I_EMU, I_CHIPS, I_RESET, I_BANK, I_LFOF, I_LFOE, I_PCMRATE, I_CHIPTYPE, I_SYSEX, I_PLAYSONG, I_NK };
-static const char *const iname[I_NK] = {"open", "close", "noteon", "noteoff", "cc", "patch", "bend", "gen", "emu", "chips", "reset", "bank", "lfofreq", "lfoen", "pcmrate", "chiptype", "sysex", "playsong"};
+enum IK { I_OPEN, I_CLOSE, I_NOTEON, I_NOTEOFF, I_CC, I_PATCH, I_BEND, I_GEN, I_EMU, I_CHIPS, I_RESET, I_BANK, I_LFOF, I_LFOE, I_PCMRATE, I_CHIPTYPE, I_SYSEX, I_PLAYSONG, I_PLAYMUS, I_NK };
+static const char *const iname[I_NK] = {"open", "close", "noteon", "noteoff", "cc", "patch", "bend", "gen", "emu", "chips", "reset", "bank", "lfofreq", "lfoen", "pcmrate", "chiptype", "sysex", "playsong", "playmus"};
 struct IOp { int kind = 0, a = 0, b = 0, c = 0; };
 typedef std::vector<IOp> Hist;
 struct Case { std::vector<Hist> h; std::vector<int> order; }; // order: whose next op runs (single-thread interleaving)
@@ -88,6 +88,11 @@ struct Runner {
         case I_CHIPTYPE: opn2_setChipType(d, (p.a % 3) - 1); break;
         case I_SYSEX: { static const uint8_t gm[] = {0xF0, 0x7E, 0x7F, 0x09, 0x01, 0xF7}; static const uint8_t mv[] = {0xF0, 0x7F, 0x7F, 0x04, 0x01, 0x00, 0x50, 0xF7}; if(p.a & 1) opn2_rt_systemExclusive(d, gm, 6); else opn2_rt_systemExclusive(d, mv, 8); break; }
         case I_PLAYSONG: { std::string s = song(); opn2_openData(d, s.data(), (unsigned long)s.size()); break; }
+        case I_PLAYMUS: { // a DMX MUS song of one note; its key-on carries a volume byte (a odd) or relies on the channel's default volume (a even)
+            std::string sc; int key = 40 + p.c % 40; sc += (char)0x90; if(p.a & 1) { sc += (char)(key | 0x80); sc += (char)(p.b % 128); } else sc += (char)key; sc += (char)0x30;
+            sc += (char)0x80; sc += (char)key; sc += (char)0x10; sc += (char)0x60;
+            std::string h("MUS\x1a", 4); auto le16 = [&](unsigned v) { h += (char)(v & 255); h += (char)(v >> 8); }; le16((unsigned)sc.size()); le16(16); le16(1); le16(0); le16(0); le16(0);
+            std::string f = h + sc; opn2_openData(d, f.data(), (unsigned long)f.size()); break; }
         }
     }
 };
@@ -156,7 +161,7 @@ static void run_threaded(const Case &c, Info &info) {
 // ---------------------------------------------------------------- generators
 static rc::Gen<Hist> genHist(bool observed) {
     using namespace rc;
-    auto op = gen::map(gen::tuple(gen::weightedElement<int>({{14, I_NOTEON}, {4, I_NOTEOFF}, {5, I_CC}, {3, I_PATCH}, {2, I_BEND}, {14, I_GEN}, {2, I_EMU}, {1, I_CHIPS}, {1, I_RESET}, {1, I_BANK}, {3, I_LFOF}, {2, I_LFOE}, {2, I_PCMRATE}, {1, I_CHIPTYPE}, {1, I_SYSEX}, {1, I_PLAYSONG}, {1, I_CLOSE}, {1, I_OPEN}}),
+    auto op = gen::map(gen::tuple(gen::weightedElement<int>({{14, I_NOTEON}, {4, I_NOTEOFF}, {5, I_CC}, {3, I_PATCH}, {2, I_BEND}, {14, I_GEN}, {2, I_EMU}, {1, I_CHIPS}, {1, I_RESET}, {1, I_BANK}, {3, I_LFOF}, {2, I_LFOE}, {2, I_PCMRATE}, {1, I_CHIPTYPE}, {1, I_SYSEX}, {1, I_PLAYSONG}, {2, I_PLAYMUS}, {1, I_CLOSE}, {1, I_OPEN}}),
                                   rng<int>(0, 1000), rng<int>(0, 1000), rng<int>(0, 1000)), [observed](std::tuple<int, int, int, int> t) {
         int k = std::get<0>(t), a = std::get<1>(t), b = std::get<2>(t), c = std::get<3>(t); IOp p; p.kind = k;
         static const int chs[] = {0, 1, 9};
